@@ -362,6 +362,15 @@ pub fn apply(w: &World, data: InterpreterData, by: usize, op: &ForgeOp, particle
             }
             d.j["cid_info"]["canon_result_store"][&new] = agg;
             d.j["trace"][pos] = json!({"canon": {"executed": new}});
+            // drop the replaced entry unless something still refers to it (a second rewrite of the same canon then
+            // restores the original data exactly, and the pair is recognised as cancelling out)
+            let still_used = d.j["trace"].as_array()?.iter().any(|st| st.get("canon").and_then(|c| c.get("executed")).and_then(|c| c.as_str()) == Some(old.as_str()))
+                || d.j["cid_info"]["canon_element_store"].as_object().map(|els| els.values().any(|e| e["provenance"]["cid"].as_str() == Some(old.as_str()))).unwrap_or(false);
+            if !still_used {
+                if let Some(store) = d.j["cid_info"]["canon_result_store"].as_object_mut() {
+                    store.remove(&old);
+                }
+            }
             must = Some("canon_rewrite".into());
         }
         ForgeOp::Reattribute => {
